@@ -184,7 +184,24 @@ def r2(ctx, fs):
         if w not in gs:
             ctx.finding(rid, f.id, 'missing ' + show_clause(w), 'unify_atom::apply must post {!rho, v} for every unification literal: choosing the unifier would not force sigma / equality', loc=f.loc)
     act = [c for c in gs if c[0] and c[0][0] == ('each', ('.', 't_flaw', 'resolvers'))]
-    ok = len(act) == 2 and all(N(RHO) in c[1] and len(c[1]) == 2 for c in act)
+    # every resolver of the target that is an activation (activate_fact / activate_goal) gets {its rho, !rho}: one clause per kind, or one clause for both
+    def dyn(t):
+        return t[1] if isinstance(t, tuple) and len(t) == 3 and t[0] == 'dyncast' and t[2] == '$0' else None
+    covered = set()
+    ok = bool(act)
+    for c in act:
+        kinds = set()
+        for g in c[0][1:]:
+            if g[0] == 'if' and g[2] is True:
+                for d in ([g[1]] if dyn(g[1]) else (g[1][1:] if isinstance(g[1], tuple) and g[1] and g[1][0] == '||' else ())):
+                    if dyn(d):
+                        kinds.add(dyn(d))
+        other = [l for l in c[1] if l != N(RHO)]
+        good = N(RHO) in c[1] and len(c[1]) == 2 and kinds and len(other) == 1 and isinstance(other[0], tuple) and other[0][0] == '.' and other[0][2] == 'rho' and \
+            (other[0][1] == '$0' or (dyn(other[0][1]) in kinds and len(kinds) == 1))
+        ok = ok and bool(good)
+        covered |= kinds
+    ok = ok and covered == {'ratio::atom_flaw::activate_fact *', 'ratio::atom_flaw::activate_goal *'}
     ctx.instance(rid, [f.id, 'target-activable'], {'clauses': [show_clause(c) for c in act]})
     if not ok:
         ctx.finding(rid, f.id, 'target-activable', 'unify_atom::apply must tie the unifier to the activation resolver of the target ({act_rho, !rho})', loc=f.loc)
@@ -252,7 +269,13 @@ def apply_rule_shape(ctx, rid, fs):
     if not this_ok:
         ctx.finding(rid, f.id, 'this', 'predicate::apply_rule must bind `this` to the atom the rule is applied to', loc=f.loc)
     # no way round the two loops: they are statements of the function body itself and nothing leaves the function early
-    top = list(kids(f.body))
+    def flat(b):
+        for x in kids(b):
+            if x.get('k') == 'CompoundStmt':
+                yield from flat(x)      # a nested block (a scope, an inlined helper) is executed whenever its parent is
+            else:
+                yield x
+    top = list(flat(f.body))
     early = [n for n in walk_nolambda(f.body) if n.get('k') in ('ReturnStmt', 'GotoStmt', 'CXXThrowExpr')]
     uncond = bool(sup) and bool(sts) and any(x is sup[0] for x in top) and any(x is sts[0] for x in top) and not early
     ctx.instance(rid, [f.id, 'unconditional'], {'loops_are_top_level_statements': uncond, 'early_exits': [short(n.get('loc')) for n in early]})
